@@ -21,8 +21,8 @@ def _case(c):
 
 def budgets(tier):
     if tier == 'quick':
-        return dict(solver_ms=10000, steps=3_000_000, paths=40000, case_s=240)
-    return dict(solver_ms=60000, steps=20_000_000, paths=400000, case_s=1500)
+        return dict(solver_ms=10000, steps=3_000_000, paths=40000, case_s=1200)
+    return dict(solver_ms=60000, steps=20_000_000, paths=400000, case_s=5400)
 
 def run_property(prop, tier, seed, make_cases, bounds, assumptions, confirm=None, profiles=None, post=None):
     run = CheckRun(prop, tier, seed)
